@@ -88,6 +88,14 @@ func main() {
 			replace[src] = dst
 		}
 	}
+	// a file that exists only in the overlay: read-only accessors for the harness (package
+	// toxiproxy, build tag verif); nothing is written into /repo
+	shim := filepath.Join(*dir, "verif_export.go")
+	if err := os.WriteFile(shim, []byte(exportShim), 0o644); err != nil {
+		fmt.Fprintln(os.Stderr, err)
+		os.Exit(1)
+	}
+	replace[filepath.Join(*repo, "verif_export_shim.go")] = shim
 	b, _ := json.MarshalIndent(map[string]any{"Replace": replace}, "", " ")
 	if err := os.WriteFile(filepath.Join(*dir, "overlay.json"), b, 0o644); err != nil {
 		fmt.Fprintln(os.Stderr, err)
@@ -95,3 +103,21 @@ func main() {
 	}
 	fmt.Printf("%d files overlaid; rand call sites: %s\n", len(replace), strings.Join(sites, ", "))
 }
+
+const exportShim = `//go:build verif
+
+package toxiproxy
+
+// VerifCounts reports the sizes of a proxy's connection registry and of its toxic
+// collection's link table (read-only accessor for the verification harness; this file
+// exists only in the build overlay).
+func VerifCounts(p *Proxy) (conns int, links int) {
+	p.connections.Lock()
+	conns = len(p.connections.list)
+	p.connections.Unlock()
+	p.Toxics.Lock()
+	links = len(p.Toxics.links)
+	p.Toxics.Unlock()
+	return
+}
+`
